@@ -37,7 +37,8 @@ def _op(draw):
     kind = draw(st.sampled_from(OPS))
     return dict(op=kind, pick=draw(st.lists(st.integers(0, 9), min_size=1, max_size=4)),
                 by_name=draw(st.booleans()), a=draw(st.integers(0, 5)), b=draw(st.integers(0, 5)),
-                mask_seed=draw(st.integers(0, 999)), use_mask=draw(st.booleans()))
+                mask_seed=draw(st.integers(0, 999)), use_mask=draw(st.booleans()),
+                repeat=draw(st.sampled_from([False, False, True])))
 
 
 @st.composite
@@ -69,7 +70,7 @@ def apply_op(d, op):
     names = list(d.channels)
     cols = []
     for p in op['pick']:
-        if p % D not in cols:
+        if p % D not in cols or (op['op'] == 'cols' and op.get('repeat')):
             cols.append(p % D)
     chs = [names[j] if op['by_name'] else j for j in cols]
     k = op['op']
